@@ -2,29 +2,41 @@
 import re
 
 from .. import lib, mir
+from .. import lib_sw as S
 from ..mir import render
 
-EXPLANATION = ("ConcurrentDial::new starts dials only from `pending_dials.by_ref().take(concurrency_factor.get() as usize)`; in "
-               "ConcurrentDial::poll every new dial is started only on the Err edge of a completed dial (pushes <= pops) and only from "
-               "pending_dials.next(); per loop iteration the Err arm records exactly one (addr, error) pair; the Ok arm returns the "
-               "accumulated errors, the None arm returns Err(all errors); SmartDial starts one future per ranked dial and has the same arm table.")
+EXPLANATION = ("ConcurrentDial::new starts dials only from `<queue>.by_ref().take(concurrency_factor.get() as usize)` and keeps the same "
+               "queue iterator for refills; in ConcurrentDial::poll every new dial is started only on the Err edge of a completed dial "
+               "(pushes <= pops) and only from the queue's next(); per loop iteration the Err arm records exactly one (addr, error) pair; "
+               "the Ok arm returns the accumulated errors, the None arm returns Err(all errors); SmartDial starts one future per ranked "
+               "dial and has the same arm table; the concurrency factor handed to ConcurrentDial::new by the pool is the per-dial "
+               "override, falling back to the pool-wide default, and the override comes from the DialOpts of that dial.  The private "
+               "fields of ConcurrentDial/SmartDial are identified by their types.")
 ASSUMPTIONS = ["FuturesUnordered yields each pushed future's output exactly once", "the in-flight bound at run time follows from pushes<=pops + initial take(k); it is not executed"]
 SW = "libp2p_swarm"
 CD = r"concurrent_dial::ConcurrentDial"
+SD = r"concurrent_dial::SmartDial"
 
 
-def arms(ctx, name, p, refill):
+def arms(ctx, name, p, refill, F):
+    """F: field roles {'dials','queue','errors'} -> current field names"""
     rets = p.return_blocks()
     polls = p.call_sites(r"StreamExt::poll_next_unpin$")
     ctx.floor(name, "poll_next_unpin", polls, 1)
     pn = polls[0]
-    err_e = lib.switch_edges_on(p, r"^discr\(.*@Ready\.0@Some\.0\.1\)$", {"Err"})
-    ok_e = lib.switch_edges_on(p, r"^discr\(.*@Ready\.0@Some\.0\.1\)$", {"Ok"})
-    none_e = lib.switch_edges_on(p, r"^discr\(futures::StreamExt::poll_next_unpin\(.*@Ready\.0\)$", {"None"})
-    pend_e = lib.switch_edges_on(p, r"^discr\(futures::StreamExt::poll_next_unpin\([^@]*\)$", {"Pending"})
+    pe = p.site_expr(pn)
+    ctx.ob(name, "the stream polled is the set of running dials", S.has_field(pe[2][0], F["dials"]), pn.loc(), render(pe)[:160])
+
+    def on_poll(c, wrap):
+        # discriminant of (a projection of) the poll_next_unpin result
+        return c[0] == "discr" and S.call_at(c[1], pn.bb) is not None and re.search(wrap, render(c)) is not None
+    err_e = S.edges_of(p, lambda c, r: on_poll(c, r"@Ready\.0@Some\.0\.1\)$"), {"Err"})
+    ok_e = S.edges_of(p, lambda c, r: on_poll(c, r"@Ready\.0@Some\.0\.1\)$"), {"Ok"})
+    none_e = S.edges_of(p, lambda c, r: on_poll(c, r"\)@Ready\.0\)$"), {"None"})
+    pend_e = S.edges_of(p, lambda c, r: on_poll(c, r"^discr\([^@]*\)$"), {"Pending"})
     ctx.ob(name, "floor:arm edges", len(err_e) == 1 and len(ok_e) == 1 and len(none_e) == 1 and len(pend_e) == 1, nontrivial=False,
            msg="Err %s Ok %s None %s Pending %s" % (sorted(err_e), sorted(ok_e), sorted(none_e), sorted(pend_e)))
-    epush = [s for s in p.call_sites(r"Vec::push$") if ".errors" in render(p.site_expr(s)[2][0])]
+    epush = [s for s in p.call_sites(r"Vec::push$") if S.has_field(p.site_expr(s)[2][0], F["errors"])]
     dpush = [s for s in p.call_sites(r"FuturesUnordered::push$")]
     ctx.floor(name, "errors.push", epush, 1)
     head = [pn.bb]
@@ -40,25 +52,28 @@ def arms(ctx, name, p, refill):
     for s in epush:
         e = render(p.site_expr(s)[2][1])
         ctx.ob(name, "recorded pair is (addr, error) of the failed dial", e.startswith("tuple{0: ") and "@Some.0.0" in e and "@Err.0" in e, s.loc(), e[:160])
-    # all dial starts in poll are on the Err edge and come from pending_dials.next()
+    # all dial starts in poll are on the Err edge and come from the queue's next()
     for s in dpush:
         ctx.guarded(name, "new dial only after a dial failed (pushes <= pops)", s,
                     lambda c, r, l: l == "Err" and r.endswith("@Ready.0@Some.0.1)"), "completed dial == Err")
-        e = render(p.site_expr(s))
-        ctx.ob(name, "new dial comes from pending_dials.next()", ".pending_dials)@Some.0.fut" in e and ".dials, " in e, s.loc(), e[:200])
+        e = p.site_expr(s)
+        nx = [c for c in mir.calls_in(e[2][1], r"Iterator>::next$|Iterator::next$") if c[2] and F.get("queue") and S.has_field(c[2][0], F["queue"])]
+        ok = bool(nx) and S.has_field(e[2][0], F["dials"]) and re.search(r"@Some\.0\.\w+$", render(e[2][1])) is not None
+        ctx.ob(name, "new dial comes from pending_dials.next()", ok, s.loc(), render(e)[:200])
     if refill:
         ctx.floor(name, "dials.push in poll", dpush, 1)
     # Ok arm / None arm results
+    take_err = r"std::mem::take\([^()]*(\([^()]*\))?[^()]*\.%s\)" % re.escape(F["errors"])
     for _, t in ok_e:
         r = p.reachable([t])
         res = [s for s in p.agg_sites(r"^std::task::Poll$", "Ready") if s.bb in r]
-        ok = len(res) == 1 and re.search(r"Result::Ok\{0: tuple\{0: .*@Some\.0\.0, 1: .*@Ok\.0, 2: std::mem::take\(.*\.errors\)\}\}", render(p.site_expr(res[0]))) is not None
+        ok = len(res) == 1 and re.search(r"Result::Ok\{0: tuple\{0: .*@Some\.0\.0, 1: .*@Ok\.0, 2: %s\}\}" % take_err, render(p.site_expr(res[0]))) is not None
         ctx.ob(name, "Ok arm returns (addr, output, accumulated errors)", ok, res[0].loc() if res else "", render(p.site_expr(res[0]))[:200] if res else "no Ready")
         ctx.ob(name, "Ok arm returns without touching the loop", not (set(head) & r), "", "success ends the future")
     for _, t in none_e:
         r = p.reachable([t])
         res = [s for s in p.agg_sites(r"^std::task::Poll$", "Ready") if s.bb in r]
-        ok = len(res) == 1 and re.search(r"^std::task::Poll::Ready\{0: std::result::Result::Err\{0: std::mem::take\(.*\.errors\)\}\}$", render(p.site_expr(res[0]))) is not None
+        ok = len(res) == 1 and re.search(r"^std::task::Poll::Ready\{0: std::result::Result::Err\{0: %s\}\}$" % take_err, render(p.site_expr(res[0]))) is not None
         ctx.ob(name, "exhausted => Err(all errors)", ok, res[0].loc() if res else "", render(p.site_expr(res[0]))[:200] if res else "no Ready")
     for _, t in pend_e:
         r = p.reachable([t])
@@ -66,43 +81,111 @@ def arms(ctx, name, p, refill):
 
 
 def check(ctx):
-    n = ctx.body(SW, CD + r"::new$")
+    prog = ctx.prog
+    FC = {"dials": S.field_by_type(prog, CD + "$", r"^futures::stream::FuturesUnordered<"),
+          "queue": S.field_by_type(prog, CD + "$", r"^std::vec::IntoIter<connection::pool::concurrent_dial::PendingDial>"),
+          "errors": S.field_by_type(prog, CD + "$", r"^std::vec::Vec<\(libp2p_core::Multiaddr, ")}
+    FS = {"dials": S.field_by_type(prog, SD + "$", r"^futures::stream::FuturesUnordered<"),
+          "errors": S.field_by_type(prog, SD + "$", r"^std::vec::Vec<\(libp2p_core::Multiaddr, ")}
+    n = S.nbody(ctx, CD + r"::new$")
+    i_dials = S.param_of_type(n, r"^std::vec::Vec<connection::pool::concurrent_dial::PendingDial>")
+    i_k = S.param_of_type(n, r"^std::num::NonZero<u8>$")
     push = n.call_sites(r"FuturesUnordered::push$")
     ctx.floor("new", "dials.push in new", push, 1)
-    for s in push:
-        e = render(n.site_expr(s))
-        ctx.ob("new", "pushed dial comes from the take(k) iterator", "<std::iter::Take as std::iter::Iterator>::next(iter)@Some.0.fut" in e, s.loc(), e[:200])
-    l = lib.local_by_name(n, "iter")
-    ie = render(n.init_expr(l))
-    want = "<I as std::iter::IntoIterator>::into_iter(std::iter::Iterator::take(std::iter::Iterator::by_ref(pending_dials), (std::num::NonZero::get(concurrency_factor) as usize)))"
-    ctx.ob("new", "initial window = take(concurrency_factor)", ie == want, "%s:%d" % (n.file, n.line), "iter = %s" % ie)
     res = n.agg_sites(CD + "$")
-    ok = len(res) == 1 and "pending_dials: pending_dials" in render(n.site_expr(res[0])) and "dials: futures::stream::FuturesUnordered::new()" in render(n.site_expr(res[0]))
-    ctx.ob("new", "remaining dials kept for refill", ok, res[0].loc() if res else "", "ConcurrentDial{dials, pending_dials: <same iterator>}")
-    p = ctx.body(SW, r"<connection::pool::concurrent_dial::ConcurrentDial as futures::Future>::poll$")
-    arms(ctx, "ConcurrentDial::poll", p, True)
+    agg = dict(n.site_expr(res[0])[4]) if len(res) == 1 else {}
+    q = agg.get(FC["queue"])
+    k_txt = "(std::num::NonZero::get(p%d) as usize)" % i_k
+    for s in push:
+        e = n.site_expr(s)
+        tn = mir.calls_in(e[2][1], r"<std::iter::Take as std::iter::Iterator>::next$")
+        ok = len(tn) == 1 and re.search(r"@Some\.0\.\w+$", render(e[2][1])) is not None
+        ctx.ob("new", "pushed dial comes from the take(k) iterator", ok, s.loc(), render(e)[:200])
+        # the Take iterator is <queue>.by_ref().take(k), <queue> being the very iterator stored for the refills
+        win = None
+        if ok:
+            src = tn[0][2][0]
+            win = n.init_expr(src[1]) if src[0] == "local" else src
+        tk = mir.calls_in(win, r"^std::iter::Iterator::take$") if win is not None else []
+        okw = len(tk) == 1 and render(tk[0][2][1]) == k_txt and S.is_call(tk[0][2][0], r"^std::iter::Iterator::by_ref$") and \
+            q is not None and q[0] == "local" and tk[0][2][0][2][0][0] == "local" and tk[0][2][0][2][0][1] == q[1]
+        ctx.ob("new", "initial window = take(concurrency_factor)", okw, "%s:%d" % (n.file, n.line), "iter = %s" % (render(win) if win is not None else None))
+        ctx.ob("new", "started dials go into the returned future set", FC["dials"] in agg and render(e[2][0]) == render(agg[FC["dials"]]), s.loc(),
+               "push into %s, ConcurrentDial.%s = %s" % (render(e[2][0])[:80], FC["dials"], render(agg.get(FC["dials"], ("unknown", "?")))[:80]))
+    ok = q is not None and q[0] == "local" and render(n.init_expr(q[1])) == "<std::vec::Vec as std::iter::IntoIterator>::into_iter(p%d)" % i_dials
+    ctx.ob("new", "remaining dials kept for refill", ok, res[0].loc() if res else "",
+           "ConcurrentDial{%s: <the iterator the window was taken from>} = %s" % (FC["queue"], render(n.init_expr(q[1])) if q is not None and q[0] == "local" else (render(q) if q is not None else None)))
+    p = S.nbody(ctx, r"<connection::pool::concurrent_dial::ConcurrentDial as futures::Future>::poll$")
+    arms(ctx, "ConcurrentDial::poll", p, True, FC)
     # who else pushes into ConcurrentDial.dials
     who = set()
-    for b in ctx.prog.bodies(SW):
+    for b in prog.bodies(SW):
         for s in b.call_sites(r"FuturesUnordered::push$"):
             if "concurrent_dial" in b.npath:
                 who.add(b.npath)
     ctx.ob("who", "dial starters", who == {n.npath, p.npath, "libp2p_swarm::connection::pool::concurrent_dial::SmartDial::new"}, msg=str(sorted(who)))
+    # ---- the factor handed to ConcurrentDial::new is the per-dial override, else the pool default; all dials are handed over
+    news = prog.callers(SW, CD + r"::new$")
+    ctx.floor("factor", "ConcurrentDial::new call sites", news, 1)
+    dflt = S.role(prog, "pool.dial_factor")
+    for s in news:
+        b = S.neutral(s.body)
+        ctx.use(b)
+        e = b.site_expr(s)
+        karg = e[2][i_k - 1]
+        try:
+            i_ov = S.param_of_type(b, r"^std::option::Option<std::num::NonZero<u8>>$")
+        except mir.RuleError:
+            i_ov = None
+        ok = False
+        if i_ov is not None:
+            r = render(karg)
+            if re.match(r"^std::option::Option::unwrap_or\(p%d, self\.%s\)$" % (i_ov, re.escape(dflt)), r):
+                ok = True
+            elif karg[0] == "local":
+                leaves = {render(x) for _, x in S.defs_exprs(b, karg[1])}
+                ok = leaves == {"p%d@Some.0" % i_ov, "self." + dflt}
+        ctx.ob("factor", "ConcurrentDial::new gets override.unwrap_or(pool default)", ok, s.loc(), "concurrency operand: %s" % render(karg)[:160])
+        try:
+            i_d = S.param_of_type(b, r"^std::vec::Vec<connection::pool::concurrent_dial::PendingDial>")
+        except mir.RuleError:
+            i_d = None
+        ctx.ob("factor", "ConcurrentDial::new gets all dials of this attempt", i_d is not None and render(e[2][i_dials - 1]) == "p%d" % i_d, s.loc(), render(e[2][i_dials - 1])[:120])
+        if i_ov is not None and b.kind not in ("closure", "coroutine"):
+            outer = prog.callers(SW, re.escape(b.npath) + "$")
+            ctx.floor("factor", "callers of " + b.short, outer, 1)
+            for o in outer:
+                ob_ = o.body
+                oe = ob_.site_expr(o)
+                a = oe[2][i_ov - 1] if len(oe[2]) >= i_ov else ("unknown", "?")
+                ctx.ob("factor", "the override is the one configured in this dial's DialOpts", S.is_call(a, r"dial_opts::DialOpts::dial_concurrency_override$"), o.loc(), render(a)[:160])
     # SmartDial
-    sn = ctx.body(SW, r"concurrent_dial::SmartDial::new$")
+    sn = S.nbody(ctx, SD + r"::new$")
     rk = sn.call_sites(r"dial_ranker::rank_dials$")
-    ok = len(rk) == 1 and render(sn.site_expr(rk[0])) == "libp2p_swarm::connection::pool::dial_ranker::rank_dials(pending_dials)"
+    ok = len(rk) == 1 and render(sn.site_expr(rk[0])) == "libp2p_swarm::connection::pool::dial_ranker::rank_dials(p1)"
     ctx.ob("smart", "ranks all given dials", ok, rk[0].loc() if rk else "", [render(sn.site_expr(s)) for s in rk].__str__())
     sp = sn.call_sites(r"FuturesUnordered::push$")
     ctx.floor("smart", "push in SmartDial::new", sp, 1)
     nxt = sn.call_sites(r"Iterator>::next$|Iterator::next$")
+    if nxt and rk:
+        e = sn.site_expr(nxt[0])
+        src = [render(e)] + [render(x) for l in S.locals_in(e) for _, x in S.defs_exprs(sn, l)]
+        ctx.ob("smart", "the loop runs over the ranked dials", any(S.call_at(x, rk[0].bb) is not None for l in S.locals_in(e) for _, x in S.defs_exprs(sn, l)) or
+               S.call_at(e, rk[0].bb) is not None, nxt[0].loc(), str(src)[:200])
     for s in sp:
         ctx.guarded("smart", "one future per ranked dial", s, lambda c, r, l: l == "Some" and "Iterator>::next(" in r, "iterator yielded a dial")
         got = lib.count_range(sn, sn.succ[nxt[0].bb] if nxt else [0], lib.bbs(nxt) + sn.return_blocks(), lib.bbs(sp),
                               blocked_edges=lib.switch_edges_on(sn, r"Iterator>::next\(", {"None"}))
         ctx.ob("smart", "exactly one push per element", got == (1, 1), s.loc(), "push per loop iteration: %s" % (got,))
-    co = [b for b in ctx.prog.children(sn) if b.kind == "coroutine"]
-    ok = len(co) == 1 and "^dial.fut" in " ".join(render(co[0].site_expr(s)) for s in co[0].call_sites(r"IntoFuture>::into_future$|IntoFuture::into_future$"))
+    co = S.children(prog, sn, "coroutine")
+    ok = len(co) == 1 and bool(sp)
+    if ok:
+        # the async block awaits the future of the very dial it was created for: capture #k is `<element>.1.fut`
+        _, caps = S.closure_captures(sn, sn.site_expr(sp[0]))
+        k = [i for i, c in enumerate(caps) if re.search(r"Iterator>::next\(.*\)@Some\.0\.1\.\w+$", render(c)) and
+             re.search(r"Pin<std::boxed::Box<|BoxFuture|DialFuture", str(S.adt_fields(prog, r"concurrent_dial::PendingDial$")))]
+        awaited = " ".join(render(co[0].site_expr(s)) for s in co[0].call_sites(r"IntoFuture>::into_future$|IntoFuture::into_future$"))
+        ok = len(k) == 1 and re.search(r"into_future\(\^\*?u%d\)" % k[0], awaited) is not None
     ctx.ob("smart", "each future awaits its own dial", ok, msg="async block awaits dial.fut")
-    q = ctx.body(SW, r"<connection::pool::concurrent_dial::SmartDial as futures::Future>::poll$")
-    arms(ctx, "SmartDial::poll", q, False)
+    q = S.nbody(ctx, r"<connection::pool::concurrent_dial::SmartDial as futures::Future>::poll$")
+    arms(ctx, "SmartDial::poll", q, False, FS)
